@@ -40,9 +40,13 @@ def mentions_error_field(e):
     return False
 
 
+ZVT_ADTS = {}
+
+
 def run(ctx, chk):
     crate = ctx.crate("zvt_feig_terminal")
     zvt = ctx.crate("zvt")
+    ZVT_ADTS.update(zvt.adts)
     n_arms = 0
     for name in FUNCS:
         try:
@@ -163,38 +167,93 @@ def check_arm(chk, f, name, enum, av, arm, sw_bb):
                 chk.require(mentions_error_field(alt), "C20/unknown-code-keeps-identity", inst,
                             "a result code without message-table entry is reported as %s, which does not name the code" % show(alt)[:80],
                             "ok_or(error naming the code)", f.sp(bb))
+            elif n in ("core::option::Option::<T>::ok_or_else", "core::option::Option::<T>::map_or_else",
+                       "core::option::Option::<T>::unwrap_or_else") and len(t["args"]) >= 2:
+                # the default is computed by a closure: it must name the code (read the abort packet's `error`)
+                cl = f.tr.value(t["args"][1])
+                cname = cl.rv.get("n") if cl.kind == "agg" and cl.rv.get("kind") == "closure" else None
+                cb = f.b.crate.bodies.get(cname) if (cname and f.b.crate is not None) else None
+                names_code = False
+                if cb is not None:
+                    import json as _json
+                    names_code = '"n": "error"' in _json.dumps(cb.raw["blocks"])
+                chk.require(names_code, "C20/unknown-code-keeps-identity", inst,
+                            "a result code without message-table entry is replaced by a default that does not name the code "
+                            "(%s with a closure that never reads .error)" % n.rsplit("::", 1)[-1], "default names the code", f.sp(bb))
             elif n.startswith("core::option::Option::<T>::") and n.rsplit("::", 1)[-1] not in ("is_some", "is_none", "as_ref", "ok_or_else"):
                 chk.fail("C20/unknown-code-keeps-identity", inst,
                          "result codes without an entry in the message table are replaced through %s: the error no longer identifies "
                          "the code for those codes" % n.rsplit("::", 1)[-1], f.sp(bb))
-    rets = [(bb, e) for bb, e in f.ret_writes() if bb in region]
     exc = EXCEPTIONS.get(name)
     if name in ANSWER_IS_ABORT:
         chk.ok("C20/abort-is-answer", inst, "the abort packet is the answer of this query (2.10.1)", f.sp(arm), nontrivial=False)
         return
-    if not chk.require(len(rets) >= 1, "C20/returns", inst, "abort arm does not return", "", f.sp(arm)):
+    # what the arm returns, path by path (symbolic evaluation: independent of temporaries, helpers, `?` vs match)
+    import pathsym as ps
+    pe = ps.PathEval(f.b, ZVT_ADTS)
+    polls_all = [bb for bb, t in f.b.calls() if callee(t) == NEXT]
+    ret_blocks = [i for i in sorted(region) if f.b.blocks[i]["term"]["t"] == "return"]
+    if not chk.require(len(ret_blocks) >= 1, "C20/returns", inst, "abort arm does not return", "", f.sp(arm)):
         return
-    for bb, e in rets:
-        kind = f.classify_ret(e)
-        allowed_exc = False
-        if exc is not None:
-            code, what = exc
-            if (what == "ok" and kind == "ok") or (what.startswith("err:") and kind == "err" and f.contains_agg(e, what[4:])):
-                # must sit on the edge of exactly that code
-                allowed_exc = on_code_edge(f, region, bb, code)
-                chk.require(allowed_exc, "C20/exception-edge", inst,
-                            "the documented translation of code 0x%02X is applied on a path that is not restricted to that code" % code,
-                            "only for 0x%02X" % code, f.sp(bb))
+
+    def on_error_field(e):
+        return any(x[0] == "field" and x[2] == "error" and any(y[0] == "field" and isinstance(y[2], tuple) and y[2][0] == "dc" and
+                                                                y[2][1] in ABORT_VARIANTS for y in ps.walk(x)) for x in ps.walk(e))
+
+    def pinned_code(conds):
+        """the result code this path is restricted to by an equality test, or None"""
+        pin = None
+        for cbb, ce, taken, listed in conds:
+            c = ps.norm(ce)
+            if c[0] == "bin" and c[1] in ("Eq", "Ne"):
+                a, b = c[2], c[3]
+                if b[0] != "const":
+                    a, b = b, a
+                while a[0] == "cast":
+                    a = a[1]
+                if b[0] == "const" and on_error_field(a):
+                    truth = (taken == "else") if listed == [0] else (taken != 0)
+                    if (c[1] == "Eq") == truth:
+                        pin = b[1]
+            elif c[0] == "discr" and any(x[0] == "call" and x[1].endswith("FromPrimitive::from_u8") and on_error_field(x) for x in ps.walk(c)):
+                # match on the ErrorMessages value made from the code: discriminant == code
+                inner = ps.core(c[1])
+                if taken != "else" and isinstance(taken, int) and listed.count(taken) == 1 and \
+                        not (inner[0] == "call" and inner[1].endswith("FromPrimitive::from_u8") and False):
+                    # (the switch on Option<ErrorMessages> Some/None has values 0/1 and is not a code test)
+                    v = f.tr.value(f.b.blocks[cbb]["term"]["d"])
+                    if v.kind == "rv" and v.rv["r"] == "discr" and ty_str(v.rv["of"]) == "zvt::constants::ErrorMessages":
+                        pin = taken
+        return pin
+    n_paths = 0
+    for r in ret_blocks:
+        for path in ps.simple_paths(f.b, arm, r, avoid=polls_all):
+            n_paths += 1
+            env, conds = pe.run(path)
+            e = ps.norm(env.get(0, ("konst", "no value")))
+            pin = pinned_code(conds)
+            is_ok = e[0] == "agg" and str(e[1]).endswith("Result::Ok")
+            is_err = (e[0] == "agg" and str(e[1]).endswith("Result::Err")) or \
+                (e[0] == "call" and e[1].endswith("FromResidual::from_residual"))
+            if exc is not None:
+                code, what = exc
+                special = (what == "ok" and is_ok) or (what.startswith("err:") and is_err and
+                                                       any(x[0] == "agg" and x[1] == what[4:] for x in ps.walk(e)))
+                if special:
+                    chk.require(pin == code, "C20/exception-edge", inst,
+                                "the documented translation of code 0x%02X is applied on a path that is not restricted to that code "
+                                "(path pinned to %s)" % (code, hex(pin) if isinstance(pin, int) else pin), "only for 0x%02X" % code, f.sp(r))
+                    continue
+            if is_ok:
+                chk.fail("C20/never-ok", inst, "an abort is reported as success: %s" % ps.show(e)[:100], f.sp(r))
                 continue
-        if kind == "ok" or kind == "ok_or":
-            chk.fail("C20/never-ok", inst, "an abort is reported as success: %s" % show(e)[:100], f.sp(bb))
-            continue
-        if kind not in ("err", "propagate"):
-            chk.fail("C20/returns", inst, "unrecognised return %s" % show(e)[:100], f.sp(bb))
-            continue
-        chk.require(mentions_error_field(e), "C20/carries-code", inst,
-                    "the error returned for an abort does not derive from the packet's result code: %s" % show(e)[:160],
-                    "error built from .error", f.sp(bb))
+            if not is_err:
+                chk.fail("C20/returns", inst, "unrecognised return %s" % ps.show(e)[:100], f.sp(r))
+                continue
+            chk.require(on_error_field(e), "C20/carries-code", inst,
+                        "the error returned for an abort does not derive from the packet's result code: %s" % ps.show(e)[:160],
+                        "error built from .error", f.sp(r))
+    chk.require(n_paths >= 1, "C20/returns", inst, "no path from the abort arm to a return could be evaluated", "", f.sp(arm), nontrivial=False)
 
 
 def on_code_edge(f, region, ret_bb, code):
